@@ -330,7 +330,7 @@ func run(c *caseIn) obs {
 		return false
 	}
 	var o obs
-	deadline := time.Now().Add(5 * time.Second)
+	deadline := time.Now().Add(15 * time.Second)
 	var written []proto.Packet
 	for {
 		written = backend.Written()
@@ -385,7 +385,7 @@ func main() {
 	emit := func(c *caseIn, stream string) {
 		o := run(c)
 		if o.hang {
-			out.GoViolation(map[string]any{"known": nil, "index": -1, "what": "chat queue never delivered the sentinel command within 5s", "case": c.coq()})
+			out.GoViolation(map[string]any{"known": nil, "index": -1, "what": "chat queue never delivered the sentinel command within 15s", "case": c.coq()})
 		}
 		term := lib.App("Check.C22.mk", c.coq(), lib.ListOf(o.ran, func(i int) string { return lib.N(uint64(i)) }), lib.List(o.backend), lib.Bool(o.disc), lib.N(uint64(o.msgs)))
 		rootsDesc := []any{}
